@@ -129,7 +129,10 @@ def recheck(name, checks=None, tier="quick", keep_meta=True):
     try:
         rc, o = sh("git apply %s" % os.path.join(d, "patch.diff"), wt)
         if rc:
-            print("cannot apply:", o)
+            # lines next to the change were rewritten by a later repair: let git merge when the hunks do not really collide
+            rc, o = sh("git apply --3way %s && git reset -q" % os.path.join(d, "patch.diff"), wt)
+        if rc:
+            print("cannot apply:", name, o[-300:])
             return None
         env = "VERIF_REPO=%s PYTHONPATH=%s " % (wt, wt)
         for c in checks or [prop]:
